@@ -274,6 +274,11 @@ pub(crate) const WAIT: Duration = Duration::from_secs(5);
 fn exception_token(tok: &str) -> Option<(bool, c_int, u8)> {
     if tok == "ok" {
         Some(wr_success())
+    } else if let Some(k) = tok.strip_prefix("ok") {
+        // `ok<k>`: success with an `exception` field that was never initialised (e.g. `write_result_t r = {0};
+        // r.success = true;` in C: 0 is not an enumerator); `k` is the raw integer of that field
+        let (s, _, raw) = wr_success();
+        Some((s, k.parse().ok()?, raw))
     } else if let Some(b) = tok.strip_prefix("raw") {
         Some(wr_raw(b.parse().ok()?))
     } else if let Some(e) = tok.strip_prefix('e') {
@@ -287,7 +292,7 @@ fn exception_token(tok: &str) -> Option<(bool, c_int, u8)> {
     }
 }
 
-/// ffi wres <wc|wr|wC|wR> <ok|e<n>|raw<b>|null>
+/// ffi wres <wc|wr|wC|wR> <ok|ok<k>|e<n>|raw<b>|null>
 pub fn run_wres(tok: &[&str]) -> String {
     let op = match tok.get(2).and_then(|x| Op::parse(x)) {
         Some(o) if !o.is_read() => o,
